@@ -1,4 +1,5 @@
 import OpcuaModel.Model.Browse
+import OpcuaModel.Model.AccessLemmas
 import OpcuaModel.Gen.RefTypes
 /-
   C33 — Browse returns exactly the matching references.
@@ -122,6 +123,27 @@ theorem C33_repaired_class_mask :
     browse [] 1 ⟨0, 0, true, 2⟩ [r] = [] ∧ ¬ SpecMatch [] ⟨0, 0, true, 2⟩ r ∧
     browse [] 1 ⟨0, 0, true, 2⟩ [x] = [x] := by
   refine ⟨by decide, ?_, by decide, ?_, by decide⟩ <;> simp [SpecMatch, suitableDirection, Ref.cls]
+
+/-- `Node.NodeClass()` on the stored attribute: the class number for the Int32 and the UInt32
+    storage form, Object (1) otherwise -/
+def nodeClassOf (d : Access.DV) : Nat :=
+  match d with
+  | .v ty p => if ty = Access.tyInt32 ∨ ty = Access.tyUInt32 then p else 1
+  | _ => 1
+
+/-- the class Browse applies the mask to does not depend on what clients have READ before: the read
+    path (`NodeNameSpace.Attribute`, C31 model) rewrites a stored UInt32 NodeClass into Int32 in place,
+    and for every node and every attribute read the class `Node.NodeClass()` derives from the stored
+    attribute is the same afterwards (reference type ids, like all node ids, are abstract keys in the
+    model: numeric, string and GUID ids alike; only the null id is special) -/
+theorem C33_class_stable_under_reads (n : Access.Node) (attr : Nat) :
+    nodeClassOf ((Access.nsAttribute n attr).2.get Access.aNodeClass) = nodeClassOf (n.get Access.aNodeClass) := by
+  unfold Access.nsAttribute
+  cases Access.access n Access.fRead <;> simp only []
+  repeat' split
+  all_goals first
+    | rfl
+    | (simp_all [nodeClassOf, Access.Node.get, Access.lookup_setAttr_same, Access.tyInt32, Access.tyUInt32])
 
 /-- non-vacuity: with subtypes, HierarchicalReferences selects Organizes and
     HasComponent but not HasTypeDefinition -/
